@@ -21,11 +21,11 @@ CONF = {"productName": "demo", "build": {"frontendDist": "../dist"}, "plugins": 
 OLD_CUSTOM = "{\"old\": \"custom content\"}\n"
 
 
-def one(d, i, c):
-    root = os.path.join(d, "i%d" % i)
-    files = {"src-tauri/src/lib.rs": rustgen.PRELUDE + "#[tauri::command]\npub fn hello(name: String) -> String { name }\n"}
+def one(d, i, c, pdir="src-tauri"):
+    root = os.path.join(d, "i%d-%s" % (i, pdir))
+    files = {pdir + "/src/lib.rs": rustgen.PRELUDE + "#[tauri::command]\npub fn hello(name: String) -> String { name }\n"}
     out = c["output"]
-    target = {"default": "src-tauri/tauri.conf.json", "conf_bare": "src-tauri/tauri.conf.json", "conf_in_dir": "cfgdir/tauri.conf.json",
+    target = {"default": pdir + "/tauri.conf.json", "conf_bare": pdir + "/tauri.conf.json", "conf_in_dir": "cfgdir/tauri.conf.json",
               "custom_bare": "custom.json", "custom_in_dir": "cfgdir/custom.json"}[out]
     is_conf = target.endswith("tauri.conf.json")
     files["cfgdir/.keep"] = ""
@@ -34,7 +34,7 @@ def one(d, i, c):
     rustgen.write_project(root, files)
     tp = os.path.join(root, target)
     before = open(tp).read() if os.path.exists(tp) else None
-    args = ["init", "-p", "./src-tauri", "-g", "./src/generated"]
+    args = ["init", "-p", "./" + pdir, "-g", "./src/generated"]
     if out != "default":
         args += ["-o", {"conf_bare": "tauri.conf.json", "conf_in_dir": "cfgdir/tauri.conf.json", "custom_bare": "custom.json",
                         "custom_in_dir": "cfgdir/custom.json"}[out]]
@@ -53,20 +53,20 @@ def one(d, i, c):
             if is_conf:
                 tg = j.get("plugins", {}).get("typegen")
                 rest_ok = j.get("productName") == "demo" and j.get("plugins", {}).get("shell") == {"open": True} and j.get("build") == CONF["build"]
-                if isinstance(tg, dict) and tg.get("outputPath") == "./src/generated" and rest_ok:
+                if isinstance(tg, dict) and tg.get("outputPath") == "./src/generated" and tg.get("projectPath") == "./" + pdir and rest_ok:
                     config = "merged"
-            elif j.get("project_path") == "./src-tauri" and j.get("output_path") == "./src/generated":
+            elif j.get("project_path") == "./" + pdir and j.get("output_path") == "./src/generated":
                 config = "written"
         except Exception:
             pass
     # stray configuration files anywhere else?
-    stray = [p for p in ("tauri.conf.json", "src-tauri/tauri.conf.json", "cfgdir/tauri.conf.json", "custom.json", "cfgdir/custom.json")
+    stray = [p for p in ("tauri.conf.json", pdir + "/tauri.conf.json", "cfgdir/tauri.conf.json", "custom.json", "cfgdir/custom.json")
              if p != target and os.path.exists(os.path.join(root, p))]
     if stray:
         config = "stray:" + ",".join(stray)
     bindings = os.path.exists(os.path.join(root, "src", "generated", "commands.ts"))
     shutil.rmtree(root, ignore_errors=True)
-    return {"event": "Init", "case": "i%d" % i, "c": c, "observed": {"status": r.status, "config": config, "bindings": bindings}}
+    return {"event": "Init", "case": "i%d/%s" % (i, pdir), "c": c, "observed": {"status": r.status, "config": config, "bindings": bindings}}
 
 
 def run(tier, seed):
@@ -79,7 +79,8 @@ def run(tier, seed):
     if len(cases) != 80:
         raise C.ToolError("init case generation incomplete: %d" % len(cases))
     with ThreadPoolExecutor(max_workers=8) as ex:
-        events = list(ex.map(lambda ic: one(d, ic[0], ic[1]), enumerate(cases)))
+        # every case with the project directory spelled plainly and with a dotted last component (a path is a path)
+        events = list(ex.map(lambda ic: one(d, ic[0][0], ic[0][1], ic[1]), [(ic, pd) for ic in enumerate(cases) for pd in ("src-tauri", "app.v2")]))
     n = len(events)
     bad = json.loads(json.dumps(events[0]))
     bad["case"] = "selftest"
